@@ -331,6 +331,10 @@ def run_shard(module, tier, seed, shard, n_shards, budget_s, only=None):
     anchors = {}
     for dotted in getattr(module, 'ANCHORS', []):
         anchors[dotted] = tracer.reached(dotted) if tracer.on else None
+    if os.environ.get('CHI_VERIF_ARGDUMP'):
+        from harness import argdump
+        argdump.dump(os.environ['CHI_VERIF_ARGDUMP'],
+                     '%s_%d' % (ctx.prop, shard))
     dump = os.environ.get('CHI_VERIF_LINEDUMP')
     if dump and tracer.on:
         # (diagnostic: which statements of chi this shard executed; read by
